@@ -351,9 +351,115 @@ func dbcmd(w []string) {
 	}
 }
 
+var sc *bufio.Scanner
+var db2 *sdb.Database
+
+// a second handle on a file, in this same process
+func second(l string) {
+	switch {
+	case strings.HasPrefix(l, "f2 open "):
+		d, err := sdb.OpenFile(l[8:])
+		if err != nil {
+			fmt.Fprintln(out, "f2 open err")
+			return
+		}
+		db2 = d
+		fmt.Fprintln(out, "f2 open ok")
+	case l == "f2 rlock" && db2 != nil:
+		fmt.Fprintf(out, "f2 rlock %v\n", db2.RLock() == nil)
+	case l == "f2 runlock" && db2 != nil:
+		fmt.Fprintf(out, "f2 runlock %v\n", db2.RUnlock() == nil)
+	case l == "f2 close" && db2 != nil:
+		fmt.Fprintf(out, "f2 close %v\n", db2.Close() == nil)
+		db2 = nil
+	case l == "nest" && db != nil:
+		// a nested call on the SAME handle from inside its own callback
+		_, err := sqlittle.VerifWrap(db).Columns("t")
+		fmt.Fprintf(out, "f2 nest %v\n", err == nil)
+	case strings.HasPrefix(l, "#"):
+		fmt.Fprintln(out, l)
+	default:
+		fmt.Fprintln(out, "f2 unknown")
+	}
+}
+
+// hold runs a high level call on the current handle; the row callback reports
+// "paused" at the first row and waits for a line on stdin before it goes on
+// (mode normal), asks to stop (mode stop) or panics (mode panic).
+func hold(w []string) {
+	if db == nil || len(w) < 4 {
+		fmt.Fprintln(out, "hold unknown")
+		return
+	}
+	hd := sqlittle.VerifWrap(db)
+	mode, op := w[1], w[2]
+	n := 0
+	pause := func() {
+		fmt.Fprintln(out, "paused")
+		out.Flush()
+		// while paused: a second handle of this same process can be driven; "resume" goes on
+		for sc.Scan() {
+			l := sc.Text()
+			if l == "resume" {
+				break
+			}
+			second(l)
+			out.Flush()
+		}
+	}
+	cbDone := func(r sqlittle.Row) bool {
+		n++
+		if n == 1 {
+			pause()
+			switch mode {
+			case "stop":
+				return true
+			case "panic":
+				panic("callback panics")
+			}
+		}
+		return false
+	}
+	cb := func(r sqlittle.Row) { cbDone(r) }
+	var err error
+	func() {
+		defer func() {
+			if r := recover(); r != nil {
+				fmt.Fprintf(out, "recovered %v\n", r)
+			}
+		}()
+		switch op {
+		case "select":
+			err = hd.SelectDone(w[3], cbDone, cols(w[4])...)
+		case "selectplain":
+			err = hd.Select(w[3], cb, cols(w[4])...)
+		case "iselect":
+			err = hd.IndexedSelect(w[3], w[4], cb, cols(w[5])...)
+		case "iselecteq":
+			err = hd.IndexedSelectEq(w[3], w[4], hkey(w[5]), cb, cols(w[6])...)
+		case "pkselect":
+			err = hd.PKSelect(w[3], hkey(w[4]), cb, cols(w[5])...)
+		case "selectrowid":
+			var r sqlittle.Row
+			r, err = hd.SelectRowid(w[3], atoi64(w[4]), cols(w[5])...)
+			if r != nil {
+				n++
+			}
+		case "columns":
+			_, err = hd.Columns(w[3])
+		}
+	}()
+	if err != nil {
+		fmt.Fprintf(out, "held rows=%d err=%s\n", n, h.ErrKind(err))
+	} else {
+		fmt.Fprintf(out, "held rows=%d ok\n", n)
+	}
+	out.Flush()
+}
+
 func main() {
 	defer out.Flush()
-	sc := bufio.NewScanner(os.Stdin)
+	sc = bufio.NewScanner(os.Stdin)
 	sc.Buffer(make([]byte, 1<<20), 1<<28)
 	for sc.Scan() {
 		line := sc.Text()
@@ -405,6 +511,12 @@ func main() {
 				}
 				pager.Data = data
 			}
+		case strings.HasPrefix(line, "f2 "):
+			second(line)
+		case strings.HasPrefix(line, "hold "):
+			hold(strings.Fields(line))
+		case line == "pid":
+			fmt.Fprintf(out, "pid %d\n", os.Getpid())
 		case strings.HasPrefix(line, "fopen "):
 			// a handle on the real file, through the real pager (locks, journal check)
 			pager = nil
